@@ -243,6 +243,10 @@ func init() {
 		r := newRng(*fSeed)
 		for i := 0; i < *fN; i++ {
 			nn := 1 + r.intn(6)
+			// half of the cases: keys with two brace pairs - the first one (the hash tag, different on every node) decides
+			// where the key lives, the second one is shared by all keys; patterns with a glob in front of a literal
+			// "{a}" match all of them, on every node
+			tagged := r.chance(1, 2)
 			var nodes [][]scanEntry
 			for j := 0; j < nn; j++ {
 				var nd []scanEntry
@@ -268,7 +272,11 @@ func init() {
 					}
 					var ks [][]byte
 					for k, nk := 0, r.intn(4); k < nk; k++ {
-						ks = append(ks, []byte(fmt.Sprintf("n%d-%d-%d", j, s, k)))
+						if tagged {
+							ks = append(ks, []byte(fmt.Sprintf("n{%d}-%d-%d{a}", j, s, k)))
+						} else {
+							ks = append(ks, []byte(fmt.Sprintf("n%d-%d-%d", j, s, k)))
+						}
 					}
 					nd = append(nd, scanEntry{cur, next, ks})
 					cur = next
@@ -277,7 +285,11 @@ func init() {
 			}
 			var extra []string
 			if r.chance(1, 2) {
-				extra = append(extra, "MATCH", "n*")
+				if tagged {
+					extra = append(extra, "MATCH", []string{"n*", "*{a}*", "*{a}", "n{?}*{a}", "?{*}*{a}"}[r.intn(5)])
+				} else {
+					extra = append(extra, "MATCH", "n*")
+				}
 			}
 			if r.chance(1, 2) {
 				extra = append(extra, "COUNT", strconv.Itoa(1+r.intn(50)))
